@@ -287,10 +287,10 @@ def FS.noHome (fs : FS) : Bool := fs.files.all fun e => e.2.noHome
 /-! ## Lexical normalisation (how Nix itself canonicalises a path literal): collapse `.` and `..`
 without looking at the filesystem. -/
 
-def lexStep (cur : List Comp) (c : Comp) : List Comp :=
+def pathLexStep (cur : List Comp) (c : Comp) : List Comp :=
   if c == ['.'] then cur else if c == ['.', '.'] then cur.dropLast else cur ++ [c]
 
-def lexNorm (start comps : List Comp) : List Comp := comps.foldl lexStep start
+def lexNorm (start comps : List Comp) : List Comp := comps.foldl pathLexStep start
 
 /-! ## The resolution recipe as data (what the translator re-extracts from `resolved_path`). -/
 
